@@ -23,6 +23,7 @@ fn lookup(engine: &str) -> Option<par::WorkerFn> {
         "tuple" => Some(engines::tuple::worker),
         "values" => Some(engines::values::worker),
         "sqlenum" => Some(engines::sqlenum::worker),
+        "stmt" => Some(engines::stmt::worker),
         _ => None,
     }
 }
@@ -37,6 +38,7 @@ fn check(prop: &str, tier: &str) -> i32 {
         "C20" => props_flat::c20(tier),
         "C18" => props_flat::c18(tier),
         "C05" => props_flat::c05(tier),
+        "C16" => props_flat::c16(tier),
         "C19" => props_flat::c19(tier),
         "C17" => props_comp::c17(tier),
         "C10" => props_comp::c10(tier),
